@@ -36,6 +36,14 @@ func Root() string {
 	return "/verif"
 }
 
+// OutRoot is where evidence/ and replay/ are written (VERIF_OUT, default Root()).
+func OutRoot() string {
+	if r := os.Getenv("VERIF_OUT"); r != "" {
+		return r
+	}
+	return Root()
+}
+
 // Seed returns VERIF_SEED or the fixed default.
 func Seed() int64 {
 	if s := os.Getenv("VERIF_SEED"); s != "" {
@@ -258,7 +266,7 @@ func (r *Run) writeReplay(v *Violation) string {
 		b, _ = json.Marshal(map[string]string{"property": v.Property, "signature": v.Signature, "summary": v.Summary, "detail_error": err.Error()})
 	}
 	h := sha256.Sum256(b)
-	dir := filepath.Join(Root(), "replay")
+	dir := filepath.Join(OutRoot(), "replay")
 	_ = os.MkdirAll(dir, 0o755)
 	p := filepath.Join(dir, fmt.Sprintf("%s-%s.json", r.ID, hex.EncodeToString(h[:6])))
 	_ = os.WriteFile(p, b, 0o644)
@@ -352,7 +360,7 @@ func (r *Run) Finish() int {
 		"violations":  unknown,
 	}
 	b, _ := json.MarshalIndent(evid, "", " ")
-	dir := filepath.Join(Root(), "evidence")
+	dir := filepath.Join(OutRoot(), "evidence")
 	_ = os.MkdirAll(dir, 0o755)
 	if err := os.WriteFile(filepath.Join(dir, r.ID+".json"), append(b, '\n'), 0o644); err != nil {
 		fmt.Fprintf(os.Stderr, "evidence: %v\n", err)
